@@ -1,132 +1,12 @@
 /-
-  C17 — the two neighbours proposed for one branch, in the `Apart` form (so that the canonical
-  split sets of the two neighbours can be compared).
+  C17 — the two neighbours proposed for one branch, in the `Apart` form (the two case analyses
+  are in `C17TwinApartRoot` and `C17TwinApartInner`, compiled in parallel).
 -/
-import Gotree.Lemmas.C17ApartLocal
-import Gotree.Lemmas.C17Twin
+import Gotree.Lemmas.C17TwinApartRoot
+import Gotree.Lemmas.C17TwinApartInner
 
 namespace Gotree.C17
 open Gotree Gotree.C17.Spec
-
-theorem apart_kids2 {Z : List String} {isRoot : Bool} {k k' : Kids} (j1 j2 : Nat) (R : List SplitE)
-    (h1 : (splitsL k).Perm (entryOf k j1 :: R)) (h2 : (splitsL k').Perm (entryOf k' j2 :: R))
-    (he : (entryOf k j1).e = (entryOf k' j2).e) (ht : (entryOf k j1).tip = false) (ht' : (entryOf k' j2).tip = false)
-    (hcZ : ∀ x ∈ (entryOf k j1).below, x ∈ Z) (hcZ' : ∀ x ∈ (entryOf k' j2).below, x ∈ Z)
-    (q1 : ∃ x, x ∈ (entryOf k j1).below ∧ x ∈ (entryOf k' j2).below)
-    (q2 : ∃ x, x ∈ (entryOf k j1).below ∧ x ∉ (entryOf k' j2).below)
-    (q3 : ∃ x, x ∈ Z ∧ x ∉ (entryOf k j1).below ∧ x ∈ (entryOf k' j2).below)
-    (q4 : isRoot = true → ∃ x, x ∈ Z ∧ x ∉ (entryOf k j1).below ∧ x ∉ (entryOf k' j2).below)
-    (hR : ∀ s ∈ R, s.below ≠ [] ∧ Within Z (entryOf k j1).below (entryOf k' j2).below s.below) :
-    ∃ cb, Apart Z cb isRoot (splitsL k) (splitsL k') :=
-  ⟨_, entryOf k j1, entryOf k' j2, R, R, rfl, h1, h2, sameBranches_refl _, he, ht, ht', hcZ, hcZ', q1, q2, q3, q4, hR⟩
-
-macro "apart2_at3" j1:num j2:num eu:ident ev:ident ey:ident tu:ident tv:ident ty:ident
-    xu:ident xv:ident xy:ident bu:ident bv:ident bY:ident : tactic => `(tactic|
-  (refine apart_kids2 $j1 $j2
-    (((⟨T.leaves $tu, $eu, T.isLeaf $tu⟩ : SplitE) :: T.splitsBelow $tu) ++
-      ((⟨T.leaves $tv, $ev, T.isLeaf $tv⟩ : SplitE) :: T.splitsBelow $tv) ++
-      ((⟨T.leaves $ty, $ey, T.isLeaf $ty⟩ : SplitE) :: T.splitsBelow $ty))
-    (by ev_entries; perm_entries) (by ev_entries; perm_entries) (by ev_entries) (by ev_entries) (by ev_entries)
-    (by ev_entries; intro x hx; simp only [List.mem_append] at hx ⊢; grind)
-    (by ev_entries; intro x hx; simp only [List.mem_append] at hx ⊢; grind)
-    (by ev_entries; pick2 $xu $xv $xy $xy) (by ev_entries; pick2 $xu $xv $xy $xy) (by ev_entries; pick3 $xu $xv $xy $xy)
-    (by intro h; cases h) ?_
-   ev_entries
-   intro s hs
-   simp only [List.mem_append] at hs
-   rcases hs with (hs | hs) | hs
-   · obtain ⟨hne, hsub⟩ := $bu s hs
-     exact ⟨hne, by within_block hsub⟩
-   · obtain ⟨hne, hsub⟩ := $bv s hs
-     exact ⟨hne, by within_block hsub⟩
-   · obtain ⟨hne, hsub⟩ := $bY s hs
-     exact ⟨hne, by within_block hsub⟩))
-
-macro "apart2_at4" j1:num j2:num eu:ident ev:ident ey:ident ez:ident tu:ident tv:ident ty:ident tz:ident
-    xu:ident xv:ident xy:ident xz:ident bu:ident bv:ident bY:ident bz:ident : tactic => `(tactic|
-  (refine apart_kids2 $j1 $j2
-    (((⟨T.leaves $tu, $eu, T.isLeaf $tu⟩ : SplitE) :: T.splitsBelow $tu) ++
-      ((⟨T.leaves $tv, $ev, T.isLeaf $tv⟩ : SplitE) :: T.splitsBelow $tv) ++
-      ((⟨T.leaves $ty, $ey, T.isLeaf $ty⟩ : SplitE) :: T.splitsBelow $ty) ++
-      ((⟨T.leaves $tz, $ez, T.isLeaf $tz⟩ : SplitE) :: T.splitsBelow $tz))
-    (by ev_entries; perm_entries) (by ev_entries; perm_entries) (by ev_entries) (by ev_entries) (by ev_entries)
-    (by ev_entries; intro x hx; simp only [List.mem_append] at hx ⊢; grind)
-    (by ev_entries; intro x hx; simp only [List.mem_append] at hx ⊢; grind)
-    (by ev_entries; pick2 $xu $xv $xy $xz) (by ev_entries; pick2 $xu $xv $xy $xz) (by ev_entries; pick3 $xu $xv $xy $xz)
-    (by intro _; ev_entries; pick3 $xu $xv $xy $xz) ?_
-   ev_entries
-   intro s hs
-   simp only [List.mem_append] at hs
-   rcases hs with ((hs | hs) | hs) | hs
-   · obtain ⟨hne, hsub⟩ := $bu s hs
-     exact ⟨hne, by within_block hsub⟩
-   · obtain ⟨hne, hsub⟩ := $bv s hs
-     exact ⟨hne, by within_block hsub⟩
-   · obtain ⟨hne, hsub⟩ := $bY s hs
-     exact ⟨hne, by within_block hsub⟩
-   · obtain ⟨hne, hsub⟩ := $bz s hs
-     exact ⟨hne, by within_block hsub⟩))
-
-/-- the statement of the local fact for one configuration -/
-def LocalTwinApart (path : List Nat) (d1 : NodeD) (isRoot : Bool) (p1 : Nat) (k1 : Kids) (j p2 : Nat) : Prop :=
-  (leavesL k1).Nodup →
-    ∀ S1 S2, applyLocal isRoot (newNNI path isRoot p1 j p2 false) (.node d1 p1 k1) = some S1 →
-      applyLocal isRoot (newNNI path isRoot p1 j p2 true) (.node d1 p1 k1) = some S2 →
-      ∃ cb, Apart (leavesL k1) cb isRoot (splitsL S1.kids) (splitsL S2.kids)
-
-set_option maxHeartbeats 4000000 in
-theorem local_twin_apart_root (path : List Nat) (d1 d2 : NodeD) (e eu ev : EdgeD) (tu tv : T)
-    (y z : EdgeD × T) (p1 p2 : Nat) (hp2 : p2 ≤ 2) :
-    LocalTwinApart path d1 true p1 [(e, T.node d2 p2 [(eu, tu), (ev, tv)]), y, z] 0 p2 ∧
-    LocalTwinApart path d1 true p1 [y, (e, T.node d2 p2 [(eu, tu), (ev, tv)]), z] 1 p2 ∧
-    LocalTwinApart path d1 true p1 [y, z, (e, T.node d2 p2 [(eu, tu), (ev, tv)])] 2 p2 := by
-  obtain ⟨xu, hxu⟩ := List.exists_mem_of_ne_nil _ (leaves_ne_nil tu)
-  obtain ⟨xv, hxv⟩ := List.exists_mem_of_ne_nil _ (leaves_ne_nil tv)
-  obtain ⟨ey, ty⟩ := y
-  obtain ⟨ez, tz⟩ := z
-  obtain ⟨xy, hxy⟩ := List.exists_mem_of_ne_nil _ (leaves_ne_nil ty)
-  obtain ⟨xz, hxz⟩ := List.exists_mem_of_ne_nil _ (leaves_ne_nil tz)
-  have bu := block_sub eu tu
-  have bv := block_sub ev tv
-  have bY := block_sub ey ty
-  have bz := block_sub ez tz
-  have h2 : p2 = 0 ∨ p2 = 1 ∨ p2 = 2 := by omega
-  unfold LocalTwinApart
-  rcases h2 with rfl | rfl | rfl <;>
-    refine ⟨?_, ?_, ?_⟩ <;> intro hnd S1 S2 hS1 hS2 <;> eval_local at hS1 <;> eval_local at hS2 <;>
-    subst hS1 <;> subst hS2 <;>
-    simp only [leavesL, T.leaves, List.append_nil, List.nodup_append, List.mem_append] at hnd <;>
-    simp only [T.kids_node, leavesL, List.append_nil] <;>
-    first
-    | apart2_at4 0 0 eu ev ey ez tu tv ty tz xu xv xy xz bu bv bY bz
-    | apart2_at4 1 1 eu ev ey ez tu tv ty tz xu xv xy xz bu bv bY bz
-    | apart2_at4 2 2 eu ev ey ez tu tv ty tz xu xv xy xz bu bv bY bz
-
-set_option maxHeartbeats 4000000 in
-theorem local_twin_apart_nonroot (path : List Nat) (d1 d2 : NodeD) (e eu ev : EdgeD) (tu tv : T)
-    (y : EdgeD × T) (p1 p2 : Nat) (hp1 : p1 ≤ 2) (hp2 : p2 ≤ 2) :
-    LocalTwinApart path d1 false p1 [(e, T.node d2 p2 [(eu, tu), (ev, tv)]), y] 0 p2 ∧
-    LocalTwinApart path d1 false p1 [y, (e, T.node d2 p2 [(eu, tu), (ev, tv)])] 1 p2 := by
-  obtain ⟨xu, hxu⟩ := List.exists_mem_of_ne_nil _ (leaves_ne_nil tu)
-  obtain ⟨xv, hxv⟩ := List.exists_mem_of_ne_nil _ (leaves_ne_nil tv)
-  obtain ⟨ey, ty⟩ := y
-  obtain ⟨xy, hxy⟩ := List.exists_mem_of_ne_nil _ (leaves_ne_nil ty)
-  have bu := block_sub eu tu
-  have bv := block_sub ev tv
-  have bY := block_sub ey ty
-  have h1 : p1 = 0 ∨ p1 = 1 ∨ p1 = 2 := by omega
-  have h2 : p2 = 0 ∨ p2 = 1 ∨ p2 = 2 := by omega
-  unfold LocalTwinApart
-  rcases h1 with rfl | rfl | rfl <;> rcases h2 with rfl | rfl | rfl <;>
-    refine ⟨?_, ?_⟩ <;> intro hnd S1 S2 hS1 hS2 <;> eval_local at hS1 <;> eval_local at hS2 <;>
-    subst hS1 <;> subst hS2 <;>
-    simp only [leavesL, T.leaves, List.append_nil, List.nodup_append, List.mem_append] at hnd <;>
-    simp only [T.kids_node, leavesL, List.append_nil] <;>
-    first
-    | apart2_at3 0 0 eu ev ey tu tv ty xu xv xy bu bv bY
-    | apart2_at3 1 1 eu ev ey tu tv ty xu xv xy bu bv bY
-    | apart2_at3 0 1 eu ev ey tu tv ty xu xv xy bu bv bY
-    | apart2_at3 1 0 eu ev ey tu tv ty xu xv xy bu bv bY
 
 theorem local_twin_apart {path : List Nat} {isRoot : Bool} {p1 : Nat} {k1 : Kids} {j : Nat}
     {e : EdgeD} {d2 : NodeD} {p2 : Nat} {u v : EdgeD × T} (d1 : NodeD)
